@@ -62,13 +62,14 @@ def subtree(tree, n):
     return out
 
 
-def init_state(tree, N):
-    """generic, path-varying poses; collections off-origin and different from each other"""
+def init_state(tree, N, ident=False):
+    """generic, path-varying poses; collections off-origin and different from each other.
+    ident=True: translation-only paths (every orientation is the unit rotation)"""
     st = {}
     for k, n in enumerate(names_of(tree)):
         P = np.array([(0.7 * k + 0.3 * i + 1.0, -0.5 * k + 0.2 * i * (k + 1), 0.4 * k - 0.25 * i + 0.5) for i in range(N)])
         rv = np.array([(0.15 * k + 0.1 * i, 0.2 - 0.07 * i * (k + 1), 0.3 * (k % 3) - 0.05 * i) for i in range(N)])
-        st[n] = (P, Rot(rv).as_matrix())
+        st[n] = (P, Rot(rv * (0.0 if ident else 1.0)).as_matrix())
     return st
 
 
@@ -122,6 +123,9 @@ def alphabet(N, reduced=False):
                 ops.append(("rotlive", r, who, st))
             ops.append(("movelive", who, st))
         ops.append(("poslive", who))
+        ops.append(("movelivelist", who, 0))     # the live view wrapped in a list
+    # in-place arithmetic through the getter: o.position += d must act like o.position = o.position + d
+    ops += [("posiadd", "s"), ("orilast",), ("oriself",)]
     return ops
 
 
@@ -139,7 +143,15 @@ ANGAX = {"s": 40.0, "v2": [15.0, 35.0]}
 
 
 def apply_impl(o, op, live=None):
-    if op[0] == "rotlive":
+    if op[0] == "posiadd":
+        o.position += np.array(D[op[1]])
+    elif op[0] == "orilast":
+        o.orientation = o.orientation[-1] if len(o._position) > 1 else o.orientation
+    elif op[0] == "oriself":
+        o.orientation = o.orientation
+    elif op[0] == "movelivelist":
+        o.move([live.position] if live.position.ndim == 1 else list(live.position), start=op[2])
+    elif op[0] == "rotlive":
         o.rotate(Rot(ROT[op[1]]), anchor=live.position, start=op[3])
     elif op[0] == "movelive":
         o.move(live.position, start=op[2])
@@ -162,7 +174,15 @@ def apply_impl(o, op, live=None):
 def apply_model(m, op, live_value=None):
     from scipy.spatial.transform import Rotation as R
 
-    if op[0] == "rotlive":
+    if op[0] == "posiadd":
+        m.set_position(np.array(m.arrays()[0], float) + np.array(D[op[1]]))
+    elif op[0] == "orilast":
+        m.set_orientation(np.array(m.arrays()[1], float)[-1:])
+    elif op[0] == "oriself":
+        m.set_orientation(np.array(m.arrays()[1], float))
+    elif op[0] == "movelivelist":
+        m.move(np.atleast_2d(live_value), op[2])
+    elif op[0] == "rotlive":
         m.rotate(Rot(ROT[op[1]]).as_matrix(), live_value, op[3])
     elif op[0] == "movelive":
         m.move(live_value, op[2])
@@ -192,7 +212,7 @@ def rel(Pc, Mc, Pd, Md):
 
 
 def opkey(op):
-    st = op[-1] if op[0] in ("move", "rot", "angax", "rotlive", "movelive") else ""
+    st = op[-1] if op[0] in ("move", "rot", "angax", "rotlive", "movelive", "movelivelist") else ""
     sc = "" if st == "" else ("auto" if st == "auto" else "neg" if st < 0 else "zero" if st == 0 else "pos")
     if op[0] == "rot":
         return f"rotate|rot={'scalar' if op[1]=='s' else 'vector'}|anchor={op[2]}|start={sc}"
@@ -200,7 +220,7 @@ def opkey(op):
         return f"angax|ang={'scalar' if op[1]=='s' else 'vector'}|anchor={op[2]}|start={sc}"
     if op[0] == "move":
         return f"move|{'scalar' if op[1]=='s' else 'vector'}|start={sc}"
-    if op[0] in ("rotlive", "movelive", "poslive"):
+    if op[0] in ("rotlive", "movelive", "poslive", "movelivelist"):
         return f"{op[0]}|live={op[2] if op[0] == 'rotlive' else op[1]}|start={sc}"
     return op[0]
 
@@ -221,7 +241,7 @@ def check_transition(tree, st, target, op, want_state=True):
         Bbefore = objs[target].getB(squeeze=False)
     m = PathModel(*st[target])
     live = live_value = None
-    if op[0] in ("rotlive", "movelive", "poslive"):
+    if op[0] in ("rotlive", "movelive", "poslive", "movelivelist"):
         who = live_member(tree, target, op[2] if op[0] == "rotlive" else op[1])
         live = objs[who]
         live_value = np.array(np.squeeze(before[who][0]), float).copy()
@@ -300,13 +320,14 @@ def expand(task):
     return n, disabled, viols, news
 
 
-def bfs(trees, Ns, levels, state_cap):
+def bfs(trees, Ns, levels, state_cap, idents=(False, True)):
     """levels: list of booleans (reduced alphabet at that depth?)"""
     level = {}
     for t in trees:
         for N in Ns:
-            st = init_state(t, N)
-            level[canon(t, st)] = (t, st, ())
+            for ident in idents:
+                st = init_state(t, N, ident)
+                level[canon(t, st)] = (t, st, ())
     seen = set(level)
     trans = disabled = 0
     viols = []
@@ -351,7 +372,7 @@ def bfs(trees, Ns, levels, state_cap):
 def run(tier, seed):
     if tier == "quick":
         parts = [("depth1-full", bfs(list(TREES), [1, 2, 3], [False], 10 ** 6)),
-                 ("depth2-reduced", bfs(list(TREES), [1, 2], [True, True], 10 ** 6))]
+                 ("depth2-reduced", bfs(list(TREES), [1, 2], [True, True], 10 ** 6, idents=(False,)))]
     else:
         parts = [("depth2-full", bfs(list(TREES), [1, 2], [False, False], 10 ** 7)),
                  ("depth2-full-N3-flat", bfs(["flat"], [3], [False, False], 10 ** 7)),
